@@ -274,15 +274,21 @@ def r05c(model: Model, rr: RuleResult):
     fac = fi.params[4]
 
     def direction(e, var) -> Optional[str]:
-        # unwrap int(...)
-        while isinstance(e, ast.Call) and norm(e.func) in ("int", "round") and len(e.args) == 1:
-            e = e.args[0]
-        s = norm(e).replace(" ", "")
+        """down / up / zero (truncation) / nearest for `<rounding>(var / factor) * factor` in its usual spellings."""
+        s = norm(e).replace(" ", "").replace("math.", "")
         v, f = var, fac
-        if s in (f"math.floor({v}/{f})*{f}", f"floor({v}/{f})*{f}", f"{v}//{f}*{f}", f"({v}//{f})*{f}"):
-            return "down"
-        if s in (f"math.ceil({v}/{f})*{f}", f"ceil({v}/{f})*{f}", f"-(-{v}//{f})*{f}", f"-((-{v})//{f})*{f}"):
-            return "up"
+        # strip an outer int(...) around the whole product
+        if s.startswith("int(") and s.endswith(")") and s.count("(") == s.count(")") and not s.endswith(f")*{f}"):
+            s = s[4:-1]
+        forms = {
+            "down": [f"floor({v}/{f})*{f}", f"int(floor({v}/{f}))*{f}", f"{v}//{f}*{f}", f"({v}//{f})*{f}", f"int({v}//{f})*{f}"],
+            "up": [f"ceil({v}/{f})*{f}", f"int(ceil({v}/{f}))*{f}", f"-(-{v}//{f})*{f}", f"-((-{v})//{f})*{f}", f"-(-{v}//{f}*{f})"],
+            "zero": [f"int({v}/{f})*{f}", f"trunc({v}/{f})*{f}", f"int(trunc({v}/{f}))*{f}"],
+            "nearest": [f"round({v}/{f})*{f}", f"int(round({v}/{f}))*{f}", f"otRound({v}/{f})*{f}"],
+        }
+        for d, alts in forms.items():
+            if s in alts:
+                return d
         return None
     want = ["down", "down", "up", "up"]
     for e, var, w in zip(rets[0].value.elts, params, want):
@@ -292,7 +298,8 @@ def r05c(model: Model, rr: RuleResult):
         if d == w:
             rr.ok(f"{var}: rounded {d} to a multiple of {fac}")
         else:
-            rr.bad(fi, e, f"{var} is rounded {d}: the box can shrink below the painted bounds", construct=f"{var}: {short(e)}")
+            how = {"zero": "toward zero (int() truncates)", "nearest": "to the nearest multiple"}.get(d, d)
+            rr.bad(fi, e, f"{var} is rounded {how}, expected {w}: the box can shrink below the painted bounds", construct=f"{var}: {short(e)}")
     a = [st for st in walk_body(fi) if isinstance(st, ast.Assert)]
     if a and norm(a[0].test) == f"{fac} >= 1":
         rr.ok("factor >= 1 asserted")
